@@ -21,13 +21,17 @@ def Shaped (I : IF) : Ev → Prop
   | .accept _ t => t.nwc I = true
   | .advance _ t => t.nwc I = true
   | .finish _ => True
+  | .freeze => True
 
 /-- how often an id was reported back to the queue (acknowledged as finished, or produced as a new URL) -/
 def reported (s : State) (x : String) : Nat := (s.acks.map Prod.fst).count x + s.produced.count x
 
+/-- how often an id was left in the frozen reactor's state table for the source to hand back to the queue -/
+def handedBack (s : State) (x : String) : Nat := s.parked.count x
+
 structure Inv (I : IF) (s : State) : Prop where
   nodup : (ids s).Nodup
-  conserve : ∀ x, s.accepted.count x = (ids s).count x + reported s x
+  conserve : ∀ x, s.accepted.count x = (ids s).count x + reported s x + handedBack s x
   done : ∀ a ∈ s.acks, a.2.anyPending = false
   shape : ∀ it ∈ s.items, it.tree.nwc I = true
 
@@ -104,12 +108,14 @@ theorem inv_step (P : PF) (I : IF) (hP : okFin P = true) (hI : okSets I = true) 
     split
     · exact hs
     · rename_i hc
-      have hc' : id ∉ ids s := by simpa using hc
+      have hc' : id ∉ ids s := by
+        simp only [Bool.or_eq_true, List.contains_eq_mem, decide_eq_true_eq, not_or] at hc
+        exact hc.1
       refine ⟨?_, ?_, hs.done, ?_⟩
       · simp only [ids, List.map_cons]; exact List.nodup_cons.2 ⟨hc', hs.nodup⟩
       · intro x
         have := hs.conserve x
-        simp only [ids, List.map_cons, List.count_cons, reported] at this ⊢
+        simp only [ids, List.map_cons, List.count_cons, reported, handedBack] at this ⊢
         omega
       · intro it hit
         simp only [List.mem_cons] at hit
@@ -122,7 +128,7 @@ theorem inv_step (P : PF) (I : IF) (hP : okFin P = true) (hI : okSets I = true) 
     · simp only [ids, ids_advance]; exact hs.nodup
     · intro x
       have := hs.conserve x
-      simp only [ids, ids_advance, reported] at this ⊢
+      simp only [ids, ids_advance, reported, handedBack] at this ⊢
       exact this
     · intro it hit
       simp only [List.mem_map] at hit
@@ -130,6 +136,9 @@ theorem inv_step (P : PF) (I : IF) (hP : okFin P = true) (hI : okSets I = true) 
       split
       · exact he
       · exact hs.shape a ha
+  | freeze =>
+    simp only [step]
+    exact ⟨hs.nodup, hs.conserve, hs.done, hs.shape⟩
   | finish id =>
     simp only [step]
     split
@@ -158,7 +167,7 @@ theorem inv_step (P : PF) (I : IF) (hP : okFin P = true) (hI : okSets I = true) 
           refine ⟨hnd, ?_, hs.done, hshape⟩
           intro x
           have := hs.conserve x
-          simp only [ids, reported, List.count_cons, hrest x] at this ⊢
+          simp only [ids, reported, handedBack, List.count_cons, hrest x] at this ⊢
           by_cases hx : x = id
           · subst hx
             simp only [ids] at hcount
@@ -168,17 +177,12 @@ theorem inv_step (P : PF) (I : IF) (hP : okFin P = true) (hI : okSets I = true) 
             simp_all
         | feedback =>
           simp only [p2, if_true]
-          refine ⟨?_, ?_, hs.done, ?_⟩
-          · simp only [ids, List.map_cons, List.nodup_cons]
-            refine ⟨?_, hnd⟩
-            intro hm
-            have := hrest it.id
-            simp only [hid, if_true] at this
-            rw [hid] at hm
-            exact absurd (List.count_pos_iff.2 hm) (by omega)
-          · intro x
+          by_cases hfz : s.frozen = true
+          · simp only [hfz, if_true]
+            refine ⟨hnd, ?_, hs.done, hshape⟩
+            intro x
             have := hs.conserve x
-            simp only [ids, reported, List.map_cons, List.count_cons, hrest x] at this ⊢
+            simp only [ids, reported, handedBack, List.count_cons, hrest x] at this ⊢
             by_cases hx : x = id
             · subst hx
               simp only [ids] at hcount
@@ -186,19 +190,39 @@ theorem inv_step (P : PF) (I : IF) (hP : okFin P = true) (hI : okSets I = true) 
               omega
             · have : (it.id == x) = false := by simpa [hid] using (fun h => hx h.symm)
               simp_all
-          · intro x hx
-            simp only [List.mem_cons] at hx
-            rcases hx with rfl | hx
-            · have := finisher_keeps_shape I hI it.tree hw
-              rw [hf] at this
-              exact this
-            · exact hshape x hx
+          · have hfz' : s.frozen = false := by simpa using hfz
+            simp only [hfz', Bool.false_eq_true, if_false]
+            refine ⟨?_, ?_, hs.done, ?_⟩
+            · simp only [ids, List.map_cons, List.nodup_cons]
+              refine ⟨?_, hnd⟩
+              intro hm
+              have := hrest it.id
+              simp only [hid, if_true] at this
+              rw [hid] at hm
+              exact absurd (List.count_pos_iff.2 hm) (by omega)
+            · intro x
+              have := hs.conserve x
+              simp only [ids, reported, handedBack, List.map_cons, List.count_cons, hrest x] at this ⊢
+              by_cases hx : x = id
+              · subst hx
+                simp only [ids] at hcount
+                simp [hid] at this ⊢
+                omega
+              · have : (it.id == x) = false := by simpa [hid] using (fun h => hx h.symm)
+                simp_all
+            · intro x hx
+              simp only [List.mem_cons] at hx
+              rcases hx with rfl | hx
+              · have := finisher_keeps_shape I hI it.tree hw
+                rw [hf] at this
+                exact this
+              · exact hshape x hx
         | finish =>
           simp only [p3, p4, Bool.and_self, if_true]
           refine ⟨hnd, ?_, ?_, hshape⟩
           · intro x
             have := hs.conserve x
-            simp only [ids, reported, List.map_cons, List.count_cons, hrest x] at this ⊢
+            simp only [ids, reported, handedBack, List.map_cons, List.count_cons, hrest x] at this ⊢
             by_cases hx : x = id
             · subst hx
               simp only [ids] at hcount
@@ -232,6 +256,6 @@ theorem inv_run (P : PF) (I : IF) (hP : okFin P = true) (hI : okSets I = true) (
     exact ih _ (inv_step P I hP hI s e hs (he e (by simp))) (fun e' h' => he e' (by simp [h']))
 
 theorem inv_init (I : IF) : Inv I {} :=
-  ⟨by simp [ids], (by intro x; simp [ids, reported]), (by intro a ha; cases ha), (by intro it hit; cases hit)⟩
+  ⟨by simp [ids], (by intro x; simp [ids, reported, handedBack]), (by intro a ha; cases ha), (by intro it hit; cases hit)⟩
 
 end Zeno.Model.Pipeline
